@@ -36,11 +36,12 @@ structure Config where
   importDefault : String := Gen.Const.schemaUnknown
   silent : Bool := false
   ro : Render.Opts := {}
+  revStar : Nat := 0
 
 def analyzeAll (c : Config) : Provider → List Stmt → Except Err (Provider × List LGraph)
   | p, [] => .ok (p, [])
   | p, s :: r =>
-    match analyze ⟨c.cfgDefault, c.importDefault, p.view, c.ro⟩ c.silent s with
+    match analyze ⟨c.cfgDefault, c.importDefault, p.view, c.ro, c.revStar⟩ c.silent s with
     | .error e => .error e
     | .ok h =>
       match analyzeAll c (register p h) r with
